@@ -2,6 +2,7 @@ import Genshi.Wire
 import Genshi.Model.Subst
 import Genshi.Model.SubstEmit
 import Genshi.Model.SubstRead
+import Genshi.Model.SubstDomain
 namespace Driver.C01
 open Genshi Genshi.Subst Genshi.Sexp
 
@@ -130,6 +131,15 @@ def handle : List Sexp → Option Sexp
       let evs ← evs.mapM ev?
       if inCacheDefectZone m strip evs then pure (.atom "unmodelled") else
       pure (.str (serialize m strip evs))
+  -- the specification side: what re-reading must give, when the case is inside the hypotheses of
+  -- `structure_preserved`
+  | [.atom "expect", m, strip, .list nodes] => do
+      let m ← method? m; let strip ← strip.toBool?
+      let nodes ← nodes.mapM node?
+      if nodesOkB m nodes && listOk [] nodes then
+        let evs := expectedList [] nodes
+        pure (.list ((if strip then coalesceStrip evs else coalesce evs).map evOut))
+      else pure (.atom "outside")
   -- the specification-side reader on a document
   | [.atom "read", m, .str doc] => do
       let m ← method? m
